@@ -6,7 +6,8 @@ import re
 
 from sa.core import Ob
 from sa.pm import AnalysisError, norm, body_nodes
-from sa import gi, df, ru
+from sa import gi, df, ru, sym
+from sa.pm import Undecided
 from sa.gi import IntSet, iv, GuardWalker, SymbolicAtomizer, reach_sets
 from sa.cfg import stmt_paths, struct_dominates
 from sa.interp import FuncVal, Unknown
@@ -718,20 +719,143 @@ def c03_13(ctx):
     cache_scope(ctx)
 
 
+# ------------------------------------------------------------------ reference transcriptions (spec/ref_vm.py)
+REF_MODULES = (INTOPS, STACKOPS, MISCOPS, CHECKSIG, COND, VM, BVM, SEG, P2S, BSC, "pycoin/coins/bitcoin/make_instruction_lookup.py")
+_REF = None
+
+
+def _ref():
+    global _REF
+    if _REF is None:
+        import os
+        _REF = ast.parse(open(os.path.join(os.path.dirname(os.path.dirname(os.path.abspath(__file__))), "spec", "ref_vm.py")).read())
+    return _REF
+
+
+INTS = lambda t: t in ("v", "v1", "v2", "v3", "a", "b", "n", "i", "pc", "size", "count", "key_count", "signature_count", "sig_count", "ls", "lr", "l_s", "hash_type", "signature_type", "opcode", "lock_time", "sequence", "nLockTime", "flags") \
+    or t.startswith(("len(", "vm.pop_int()", "vm.pop_nonnegative()", "pop_check_bounds(", "ord(", "int(", "self.op_count", "vm.op_count", "self.pc", "vm.pc", "vm.flags", "self.flags", "self.true_count", "self.false_count"))
+
+
+def _ref_functions(ctx):
+    if "c03_ref" not in ctx.cache:
+        names = {n.name for n in _ref().body if isinstance(n, ast.FunctionDef)}
+        out = {}
+        for rel in REF_MODULES:
+            m = ctx.p.module(rel)
+            for q, f in ctx.p.functions.items():
+                if f.module is m and not isinstance(f.node, ast.Lambda):
+                    rn = "q__" + q[len(m.name) + 1:].replace(".", "__")
+                    if rn in names:
+                        out[q] = (f, rn)
+        ctx.cache["c03_ref"] = out
+        ctx.cache["c03_status"] = {}
+    return ctx.cache["c03_ref"]
+
+
+def _status(ctx, fi):
+    refs = _ref_functions(ctx)
+    if fi.qualname not in refs:
+        return "none", []
+    st = ctx.cache["c03_status"]
+    if fi.qualname not in st:
+        try:
+            status, details, s_ref, rn = sym.reference_status(ctx, fi, _ref(), refs[fi.qualname][1], INTS)
+        except Exception as e:          # the engine could not read the function: no information
+            status, details = "unrecognised", [("error", "engine", str(e)[:80], None, 0.0)]
+        st[fi.qualname] = (status, details)
+    return st[fi.qualname]
+
+
+def _func_at(ctx, where):
+    try:
+        rel, line = where.rsplit(":", 1)
+        line = int(line)
+        m = ctx.p.module(rel)
+    except Exception:
+        return None
+    best = None
+    for f in ctx.p.functions.values():
+        if f.module is m and not isinstance(f.node, ast.Lambda) and f.node.lineno <= line <= (f.node.end_lineno or f.node.lineno):
+            if best is None or f.node.lineno >= best.node.lineno:
+                best = f
+    return best
+
+
+def guarded(fn):
+    """The older rules of this property read particular spellings.  When one of them fails on a function whose
+    canonical form EQUALS the reviewed reference transcription, the spelling changed, not the behaviour: the
+    failure is dropped.  When the function is organised differently from the reference, the failure is reported as
+    undecided.  Only when the canonical form differs from the reference in a component does it stand."""
+    def run(ctx):
+        orig_bad = ctx.bad
+        orig_check = ctx.check
+
+        def bad(key, where, msg, sample=None):
+            fi = _func_at(ctx, where)
+            st = _status(ctx, fi)[0] if fi is not None else "none"
+            if st == "same":
+                ctx.ok("spelling-only:%s" % key, nontrivial=False)
+            elif st == "unrecognised":
+                ctx.undecided(key, where, msg)
+            else:
+                orig_bad(key, where, msg, sample)
+
+        def check(cond, key, where, msg, what=None, sample=None):
+            if cond:
+                ctx.ok(what or key, sample)
+                return True
+            bad(key, where, msg, sample)
+            return False
+        ctx.bad, ctx.check = bad, check
+        try:
+            fn(ctx)
+        except AnalysisError as e:
+            # an anchor of the old rule is gone: if every reference still matches this is a spelling matter
+            del ctx.bad, ctx.check
+            raise Undecided("old-style rule could not read the code (%s)" % e)
+        finally:
+            if "bad" in ctx.__dict__:
+                del ctx.bad
+            if "check" in ctx.__dict__:
+                del ctx.check
+    run.__name__ = fn.__name__
+    return run
+
+
+# ------------------------------------------------------------------ C03.15
+def c03_15(ctx):
+    refs = _ref_functions(ctx)
+    if len(refs) < 120:
+        raise AnalysisError("only %d of the transcribed functions were found in the repository" % len(refs))
+    for q in sorted(refs):
+        fi, rn = refs[q]
+        status, details = _status(ctx, fi)
+        where = "%s:%d" % (fi.module.relpath, fi.node.lineno)
+        if status == "same":
+            ctx.ok("ref:%s" % q, sample={"function": q, "reference": rn} if fi.name in ("do_OP_CHECKMULTISIG", "eval_instruction", "do_OP_WITHIN") else None)
+        elif status == "differs":
+            for d in details[:3]:
+                ctx.bad("ref:%s:%s" % (fi.qualname.split(".", 2)[-1], d[1]), where, "%s computes `%s` where the reference transcription computes `%s`" % (fi.qualname, (d[3] or "")[:260], (d[2] or "")[:260]))
+        else:
+            ctx.undecided("ref:%s" % q, where, "%s is organised differently from the reference transcription (%s); no verdict" % (fi.qualname, "; ".join("%s %s" % (d[0], (d[2] or d[3] or "")[:70]) for d in details[:2])))
+
+
 OBLIGATIONS = [
-    Ob("C03.1", "all 256 opcode values: dispatch-table binding vs consensus class, outside_conditional bit, arithmetic lambdas", c03_1, floor=256, engines="REG,CE",
+    Ob("C03.1", "all 256 opcode values: dispatch-table binding vs consensus class, outside_conditional bit, arithmetic lambdas", guarded(c03_1), floor=256, engines="REG,CE",
        breaks_if="any script containing that opcode (also inside unexecuted branches)", exhaustive=True),
-    Ob("C03.2", "no Python truthiness of stack items in live handlers", c03_2, floor=10, engines="DF,REG", breaks_if="0x00 / 0x80 operands (OP_IFDUP ...)"),
-    Ob("C03.3", "every numeric read is bounded (4 bytes, 5 for CLTV/CSV) and honours MINIMALDATA", c03_3, floor=4, engines="CFG,GI,REG", breaks_if="5-byte operands of WITHIN/PICK/ROLL/CHECKMULTISIG/0NOTEQUAL"),
-    Ob("C03.5", "limits as intervals: script/push/op-count/stack sizes, multisig counts, witness program, P2SH pattern, DER size", c03_5, floor=20, engines="GI,CE"),
-    Ob("C03.6", "520-byte element limit applies to the witness input stack, not the witness script", c03_6, floor=4, engines="DF,GI", breaks_if="P2WSH witness script > 520 bytes"),
-    Ob("C03.7", "*VERIFY opcodes = base opcode; pop; fail unless true", c03_7, floor=5, engines="SIB"),
-    Ob("C03.8", "flag plumbing across scriptSig / scriptPubKey / P2SH / witness stages", c03_8, floor=20, engines="DF,GI"),
-    Ob("C03.9", "LOW_S compares with the group order", c03_9, floor=2, engines="MK", breaks_if="s in (n/2, p/2]"),
-    Ob("C03.10", "conditional stack guards, MINIMALIF, pop only when executing", c03_10, floor=8, engines="GI"),
-    Ob("C03.14", "stack-shape inference of the pure stack opcodes vs the consensus stack diagrams; hash opcodes; simple handlers", c03_14, floor=40, engines="CE(abstract stack),SIB",
+    Ob("C03.2", "no Python truthiness of stack items in live handlers", guarded(c03_2), floor=10, engines="DF,REG", breaks_if="0x00 / 0x80 operands (OP_IFDUP ...)"),
+    Ob("C03.3", "every numeric read is bounded (4 bytes, 5 for CLTV/CSV) and honours MINIMALDATA", guarded(c03_3), floor=4, engines="CFG,GI,REG", breaks_if="5-byte operands of WITHIN/PICK/ROLL/CHECKMULTISIG/0NOTEQUAL"),
+    Ob("C03.5", "limits as intervals: script/push/op-count/stack sizes, multisig counts, witness program, P2SH pattern, DER size", guarded(c03_5), floor=20, engines="GI,CE"),
+    Ob("C03.6", "520-byte element limit applies to the witness input stack, not the witness script", guarded(c03_6), floor=4, engines="DF,GI", breaks_if="P2WSH witness script > 520 bytes"),
+    Ob("C03.7", "*VERIFY opcodes = base opcode; pop; fail unless true", guarded(c03_7), floor=5, engines="SIB"),
+    Ob("C03.8", "flag plumbing across scriptSig / scriptPubKey / P2SH / witness stages", guarded(c03_8), floor=20, engines="DF,GI"),
+    Ob("C03.9", "LOW_S compares with the group order", guarded(c03_9), floor=2, engines="MK", breaks_if="s in (n/2, p/2]"),
+    Ob("C03.10", "conditional stack guards, MINIMALIF, pop only when executing", guarded(c03_10), floor=8, engines="GI"),
+    Ob("C03.14", "stack-shape inference of the pure stack opcodes vs the consensus stack diagrams; hash opcodes; simple handlers", guarded(c03_14), floor=40, engines="CE(abstract stack),SIB",
        breaks_if="any script using the opcode (ROT / 2ROT / TUCK permutations, WITHIN bounds)"),
-    Ob("C03.13", "sighash cache of CHECKSIG/CHECKMULTISIG is call-local (shared with C06.2)", c03_13, floor=7, engines="EF,DF",
+    Ob("C03.13", "sighash cache of CHECKSIG/CHECKMULTISIG is call-local (shared with C06.2)", guarded(c03_13), floor=7, engines="EF,DF",
        breaks_if="two CHECKSIGs sharing a hash type where the second signature appears in the script (FindAndDelete)"),
-    Ob("C03.12", "CLTV / CSV comparison rules (masked values, eras, preconditions)", c03_12, floor=9, engines="DF,GI", breaks_if="nSequence with unused upper bits set"),
+    Ob("C03.12", "CLTV / CSV comparison rules (masked values, eras, preconditions)", guarded(c03_12), floor=9, engines="DF,GI", breaks_if="nSequence with unused upper bits set"),
+    Ob("C03.15", "every opcode handler, VM / conditional-stack method and P2SH / segwit / solution-checker function equals its reviewed reference transcription (canonical forms)", c03_15, floor=120, engines="SYM",
+       breaks_if="any script exercising the changed handler"),
 ]
